@@ -1428,7 +1428,7 @@ static int
 seg_virt_cmp(const void *a, const void *b)
 {
 	const struct load_segment *la = a, *lb = b;
-	return la->phys != lb->phys ? (la->phys < lb->phys ? -1 : 1) : 0;
+	return la->virt != lb->virt ? (la->virt < lb->virt ? -1 : 1) : 0;
 }
 
 static kdump_status
